@@ -14,7 +14,7 @@
 (* inside) and `Naive` (plain path joining, follows everything).  The      *)
 (* property is stated on Rooted; Naive tells which scenarios are effective  *)
 (* (would escape if some operation were done by joined path).              *)
-EXTENDS Integers, Sequences, FiniteSets, TLC, Json, CSV, IOUtils
+EXTENDS PathOps, Json, CSV, IOUtils
 
 Comps == {"a", "l", "lf", "s", ".."}
 Names == UNION {[1..k -> Comps] : k \in 1..3}
@@ -27,42 +27,6 @@ OpsOf(ty, exists) ==
     [] ty = "dir"  -> {"lstat", "mkdir", "chmod", "chtimes", "chown", "unlink-to-make-room"}
     [] ty = "lnk"  -> {"lstat", "readlink", "symlink", "rename"}
     [] OTHER       -> {"lstat", "open-parent", "mknod"}
-
-(* ---- locations: [reg |-> "in" | "out", path |-> sequence below dst / below box] *)
-In(p) == [reg |-> "in", path |-> p]
-Out(p) == [reg |-> "out", path |-> p]
-Root == In(<<>>)
-
-(* where a symlink component leads (sentS: the list already created s) *)
-LinkTarget(c, sentS) ==
-  CASE c = "l" -> Out(<<"outside">>)
-    [] c = "lf" -> Out(<<"outside", "file">>)
-    [] c = "s" /\ sentS -> Out(<<"outside">>)
-    [] OTHER -> Root          \* not a link
-IsLink(c, sentS) == c \in {"l", "lf"} \/ (c = "s" /\ sentS)
-
-(* one naive step from a location *)
-NaiveStep(loc, c, sentS, last, follow) ==
-  IF c = ".." THEN
-     IF loc.reg = "in" THEN (IF loc.path = <<>> THEN Out(<<>>) ELSE In(SubSeq(loc.path, 1, Len(loc.path) - 1)))
-     ELSE Out(IF loc.path = <<>> THEN <<>> ELSE SubSeq(loc.path, 1, Len(loc.path) - 1))
-  ELSE IF loc.reg = "in" /\ loc.path = <<>> /\ IsLink(c, sentS) /\ (~last \/ follow)
-       THEN LinkTarget(c, sentS)
-       ELSE [loc EXCEPT !.path = Append(loc.path, c)]
-NaiveLoc(name, abs, sentS, follow) ==
-  LET F[k \in 0..Len(name)] ==
-        IF k = 0 THEN (IF abs THEN Out(<<"abs">>) ELSE Root)
-        ELSE NaiveStep(F[k-1], name[k], sentS, k = Len(name), follow)
-  IN F[Len(name)]
-Refused == [reg |-> "refused", path |-> <<>>]
-(* the rooted resolution refuses as soon as a step would leave the root *)
-RootedLoc(name, abs, sentS, follow) ==
-  LET F[k \in 0..Len(name)] ==
-        IF k = 0 THEN (IF abs THEN Refused ELSE Root)
-        ELSE IF F[k-1].reg = "refused" THEN Refused
-             ELSE LET n == NaiveStep(F[k-1], name[k], sentS, k = Len(name), follow)
-                  IN IF n.reg = "out" THEN Refused ELSE n
-  IN F[Len(name)]
 
 Escapes(name, abs, sentS) ==
   \/ NaiveLoc(name, abs, sentS, TRUE).reg = "out"
